@@ -139,6 +139,8 @@ def locate_slice(values, start, stop, step, issorted=False):
 
         if step is not None and step < 0:
             istart -= 1
+            if istart < 0:
+                return 0, 0 # start lies before the first element: empty selection (-1 would wrap around)
     else:
         istart = None
 
